@@ -1146,7 +1146,127 @@ func genC15(c *Ctx) {
 			c.c15Check(root, txt, all, steps[k-1], target, fmt.Sprintf("dense-acyclic/%d-steps", k), false)
 		}
 	}
+	c15RandomQueries(c)
 	_ = sort.Strings
+}
+
+// c15RandomQueries: queries grown from a small grammar over the fields every step has (name: string, ok: bool, items: [...{v: string}]),
+// with a hole wherever a root field is read. A shape is kept when it is accepted with `input` in every hole (so nothing but the
+// availability of the root fields can reject it); filled with root fields, it must be rejected exactly when one of the fields read -
+// in whatever position, at whatever depth - is blocked for the current step, and accepted with the type of the calibration otherwise.
+func c15RandomQueries(c *Ctx) {
+	r := c.R
+	const hole = "\x00"
+	var str, cond func(d int) string
+	str = func(d int) string {
+		switch r.Intn(6) {
+		case 0:
+			return `"x"`
+		case 1:
+			return "$." + hole + ".items.First().v"
+		case 2:
+			if d > 0 {
+				return "$." + hole + ".name.ReplaceAll(\"a\"," + str(d-1) + ")"
+			}
+		case 3:
+			return "$." + hole + ".items.Last().v.TrimLeft(1)"
+		}
+		return "$." + hole + ".name"
+	}
+	cond = func(d int) string {
+		k := r.Intn(9)
+		if d <= 0 && k >= 5 {
+			k = r.Intn(5)
+		}
+		switch k {
+		case 0:
+			return "$." + hole + ".ok"
+		case 1:
+			return str(d) + ".Equal(" + str(d) + ")"
+		case 2:
+			return str(d) + ".AnyOf(" + str(d) + "," + str(d) + ")"
+		case 3:
+			return str(d) + ".AnyOf(" + str(d) + "," + str(d) + "," + str(d) + ")"
+		case 4:
+			return "$." + hole + ".ok.Not()"
+		case 5:
+			return "{" + []string{"AND,", "OR,", ""}[r.Intn(3)] + cond(d-1) + "," + cond(d-1) + "}"
+		case 6:
+			return "$." + hole + ".items[@.v.Equal(" + str(d-1) + ")].Count().Greater(0)"
+		case 7:
+			return "$." + hole + ".items[@.v.AnyOf(" + str(d-1) + "," + str(d-1) + ")].Any()"
+		default:
+			return "{" + cond(d-1) + "}"
+		}
+	}
+	steps := []string{"s1", "s2", "s3", "s4"}
+	graphs := []map[string][]string{{"s2": {"s1"}, "s3": {"s2"}, "s4": {"s3"}}, {"s3": {"s1", "s2"}, "s4": {"s4"}}, {"s1": {"s2"}, "s2": {"s1"}, "s4": {"s1"}}, {}}
+	all := append(append([]string{"input", "variables"}, steps...), "lonely")
+	n := c.scale(500, 5000)
+	kept, calls := 0, 0
+	for i := 0; i < n; i++ {
+		var shape string
+		switch r.Intn(5) {
+		case 0:
+			shape = str(2)
+		case 1:
+			shape = "$." + hole + ".items[@.v.AnyOf(" + str(1) + "," + str(1) + ")]"
+		default:
+			shape = cond(2)
+		}
+		holes := strings.Count(shape, hole)
+		if holes == 0 {
+			continue
+		}
+		root, txt := c15Schema(steps, graphs[i%len(graphs)], []string{"lonely"})
+		cp := steps[r.Intn(len(steps))]
+		cal := cueValidateGuarded(strings.ReplaceAll(shape, hole, "input"), txt, cp)
+		if !strings.HasPrefix(cal.Line, "ACC") {
+			continue // the shape itself is not a valid query over these fields: nothing to learn from it
+		}
+		kept++
+		allowed, _, errored := specAllowed(root, cp)
+		if errored {
+			continue
+		}
+		var free, blocked []string
+		for _, f := range all {
+			if !allowed[f] || (f == cp && cp != "input") {
+				blocked = append(blocked, f)
+			} else {
+				free = append(free, f)
+			}
+		}
+		for variant := 0; variant < 3; variant++ {
+			// 0: permitted fields only; 1: one blocked field in one hole, permitted ones elsewhere; 2: any field anywhere
+			one := r.Intn(holes)
+			q, reads := shape, false
+			for h := 0; h < holes; h++ {
+				var f string
+				switch {
+				case variant == 1 && h == one && len(blocked) > 0:
+					f = blocked[r.Intn(len(blocked))]
+				case variant == 2:
+					f = all[r.Intn(len(all))]
+				default:
+					f = free[r.Intn(len(free))]
+				}
+				if !allowed[f] || (f == cp && cp != "input") {
+					reads = true
+				}
+				q = strings.Replace(q, hole, f, 1)
+			}
+			expect := cal.Line
+			if reads {
+				expect = "REJ"
+			}
+			calls++
+			c.cueDo(cueCase{S: root, P: []string{"input", "name"}, CP: cp, Dom: true, Pos: "random", Q: q, Txt: txt}, fmt.Sprintf("random-queries/%d-holes", min(holes, 6)), expect, false)
+		}
+	}
+	c.Extra["random_query_shapes_kept"] = kept
+	c.Extra["random_query_validations"] = calls
+	c.Rule += "; random queries over the step fields (strings, conditions, nested groups, filters, calls with one to three arguments, arguments of arguments; a shape is kept when it is accepted with `input` in every hole), every hole filled with a root field: rejected exactly when some field read, wherever it sits, is blocked for the current step; accepted with the calibrated type otherwise"
 }
 
 // ---------- the error status of result trees ----------
